@@ -1027,6 +1027,27 @@ func (e *Env) addrOf(x *Expr) (string, types.Type, bool) {
 		i := e.coerce(e.eval(x.A[1]), intT)
 		switch u := base.Ty.Underlying().(type) {
 		case *types.Slice:
+			if it := tr.toIdx(i); i.Const == nil && !strings.Contains(it, "%%") && len(it) < 120 && strings.Contains(it, "(slen ") && !strings.Contains(it, "sk_") && len(tr.clauseCandSet) < 8 {
+				// an index built from a slice length (x[len(dst)], x[len(x)-1]) that a contract clause
+				// reads at: an instantiation term for the quantified facts
+				// about slices (prefix preserved by append, copy, callee frames), like the indices the
+				// code itself uses
+				known := false
+				for _, c := range tr.idxCands {
+					if c.T == it {
+						known = true
+					}
+				}
+				if !known {
+					// marked, so that the sliding window of the code's own index terms (globalCands)
+					// is not pushed out by clause terms
+					if tr.clauseCandSet == nil {
+						tr.clauseCandSet = map[string]bool{}
+					}
+					tr.clauseCandSet[it] = true
+					tr.idxCands = append(tr.idxCands, Val{T: it, Ty: intT})
+				}
+			}
 			return tr.elemAddr(fmt.Sprintf("(sbase %s)", base.T), tr.ivAdd(fmt.Sprintf("(soff %s)", base.T), tr.toIdx(i))), u.Elem(), true
 		case *types.Pointer:
 			if arr, ok := u.Elem().Underlying().(*types.Array); ok {
